@@ -131,6 +131,7 @@ pub fn party_fixtures(seed: u64) -> (Party, Party) {
 pub fn run(rep: &Report) {
     let seed = rep.seed;
     rep.set_rule("E-ENV fault enumeration: for every call index k of every explored run, each fault of the menu (read: Interrupted, Other; write: Ok(0), Interrupted, Other; flush: Interrupted, Other) is injected at k (fault budget 1) on top of short-read/short-write schedules within the stated budget; every execution is checked against the oracle, failing ones are re-run with the fault replaced by the default answer (prefix clause). distinct non-trivial = distinct (subject, input, tape) executions that contain at least one non-default answer");
+    rep.rule_add("CLI faults (missing directory, /dev/full, closed pipe, RLIMIT_FSIZE, directory as input) and CLI partial reads (stdin in pieces at a boundary set of offsets; byte by byte).");
     rep.assume("fault budget 1 per execution (2 on the smallest scopes in the thorough tier: an interruption followed by another fault); after a hard fault the operation has returned; Interrupted is never injected twice in a row at one position");
     rep.assume("data values from seed-derived alphabets");
     let key = derive32(seed, "c10-key");
